@@ -177,8 +177,16 @@ def strat_call(draw, tier, which):
         for _ in range(depth - 1)]
     extra = dict((k, draw(pool[k])) for k in draw(st.sets(
         st.sampled_from(sorted(pool)), max_size=len(pool))))
+    # the context the controller is created with: the documented default
+    # (None), nothing at all, or some of the contextual arguments
+    initial = draw(st.one_of(
+        st.none(), st.none(), st.just({}),
+        st.sets(st.sampled_from(sorted(pool)), max_size=2).map(sorted)))
+    if isinstance(initial, list):
+        initial = dict((k, draw(pool[k])) for k in initial)
     return {"which": which, "method": name, "values": values,
             "styles": styles, "decoys": decoys, "extra": extra,
+            "initial_context": initial,
             "update": draw(st.booleans())}
 
 
@@ -204,7 +212,7 @@ def _wire(log):
 
 
 def call_method(obj, fn_name, base, ctx_params, values, styles, decoys,
-                extra, update):
+                extra, update, initial=None):
     """Call obj.<fn_name> with each contextual parameter passed in the style
     asked for.  Returns (resolved values by the reference resolver,
     TypeError or None, result)."""
@@ -247,7 +255,8 @@ def call_method(obj, fn_name, base, ctx_params, values, styles, decoys,
         if k not in ctx_params:
             inner[k] = v
     # ---- reference resolver
-    contexts = [dict(obj.get_context_arguments())] + \
+    contexts = [dict(obj.get_context_arguments() if initial is None
+                     else initial)] + \
         [dict(d) for d in decoys] + [inner]
     resolved = {}
     for name, default in ctx_params.items():
@@ -323,8 +332,11 @@ def check_call(case):
                 world.net.attach(b.name, 17893, b)
             with world:
                 with sut("controller construction"):
+                    init = None if ref else case.get("initial_context")
+                    ikw = {} if init is None else {"initial_context":
+                                                   dict(init)}
                     if which == "mc":
-                        obj = world.controller()
+                        obj = world.controller(**ikw)
                         obj.scp_data_length       # probe once, up front
                         log = m.log
                         pool = MC_CTX
@@ -332,7 +344,7 @@ def check_call(case):
                         from rig.machine_control.bmp_controller import \
                             BMPController
                         obj = BMPController(dict(
-                            (k, v.name) for k, v in boards.items()))
+                            (k, v.name) for k, v in boards.items()), **ikw)
                         obj._scp_data_length = 256
                         log = []
                         pool = BMP_CTX
@@ -352,7 +364,7 @@ def check_call(case):
                                 obj, case["method"], base, ctx_params,
                                 case["values"], case["styles"],
                                 case["decoys"], case["extra"],
-                                case["update"])
+                                case["update"], init)
                 except SCPError as e:
                     res, err, out = {}, e, None
                 if which == "mc":
@@ -501,6 +513,11 @@ def strat_blocks(draw, tier):
             s["style"] = draw(st.sampled_from(["pos", "kw", "ctx"]))
         elif kind == "raise":
             s["levels"] = draw(st.integers(1, 3))
+            # what leaves the blocks: an ordinary exception, or an interrupt
+            # / interpreter exit (which are not Exception subclasses)
+            s["exc"] = draw(st.sampled_from(["Exception", "Exception",
+                                             "KeyboardInterrupt",
+                                             "SystemExit"]))
         elif kind == "probe":
             s["explicit"] = dict((k, draw(pool[k])) for k in draw(st.sets(
                 st.sampled_from(["x", "y", "p"]), max_size=3)))
@@ -542,8 +559,10 @@ def check_blocks(case):
             before = len(m.signals)
             with sut("leaving a context block"):
                 if exc:
+                    et = {"KeyboardInterrupt": KeyboardInterrupt,
+                          "SystemExit": SystemExit}.get(exc, _Boom)
                     try:
-                        ctx.__exit__(_Boom, _Boom(), None)
+                        ctx.__exit__(et, et(), None)
                     except _Boom:
                         pass
                     nontrivial = True
@@ -635,7 +654,7 @@ def check_blocks(case):
                     leave(False)
             elif op == "raise":
                 for _ in range(min(step["levels"], len(stack))):
-                    leave(True)
+                    leave(step.get("exc", "Exception"))
             elif op == "probe":
                 want = merged()
                 want.update(step["explicit"])
@@ -694,6 +713,9 @@ def strat_conn(draw, tier):
                             min_size=1, max_size=10))
     return {"w": w, "h": h, "up": sorted(map(list, up)),
             "root": [rx, ry],
+            # the machine is first seen at half its width (the other boards
+            # are switched on later) and discovered a second time
+            "grow": w == 24 and draw(st.integers(0, 2)) == 0,
             "targets": [list(t) for t in targets],
             "discover": draw(st.sampled_from([True, True, False]))}
 
@@ -711,6 +733,7 @@ def check_conn(case):
         c.ip = (10, 1, c.x, c.y)
     for c in m.chips.values():
         c.sync_system_memory(router=False, p2p=(c.x, c.y) == root)
+    grow = case.get("grow") and case["discover"] and root[0] < 12
     with World(m) as w:
         for (x, y) in up:
             if (x, y) != root:
@@ -718,7 +741,51 @@ def check_conn(case):
         with sut("discover_connections"):
             mc = w.controller()
             mc.scp_data_length
-            if case["discover"]:
+            if grow:
+                # phase 1: only the left half is there
+                hidden = dict((xy, c) for xy, c in m.chips.items()
+                              if xy[0] >= 12)
+                for xy in hidden:
+                    del m.chips[xy]
+                for c in m.chips.values():
+                    ox, oy = boardtile.board_origin(c.x, c.y, *root)
+                    c.local_eth = (ox % 12, oy % h_)
+                    c.sync_system_memory(router=False,
+                                         p2p=(c.x, c.y) == root)
+                up1 = set(u for u in up if u[0] < 12)
+                n1 = mc.discover_connections()
+                require(n1 == len(up1) - 1, "discover_connections does not "
+                        "report the number of new connections",
+                        {"got": n1, "expected": len(up1) - 1, "phase": 1})
+                for (x, y) in map(tuple, case["targets"]):
+                    if x >= 12:
+                        continue
+                    n0 = len(m.log)
+                    mc.read(SDRAM, 4, x, y)
+                    ox, oy = boardtile.board_origin(x, y, *root)
+                    eth = (ox % 12, oy % h_)
+                    host = "10.1.%d.%d" % eth if eth in up1 and \
+                        eth != root else "spinn-0-0"
+                    for e in m.log[n0:]:
+                        require(e["conn"] == host, "a command does not "
+                                "travel over the connection of the board "
+                                "that holds the target",
+                                {"target": [x, y], "phase": 1,
+                                 "board_ethernet_chip": list(eth),
+                                 "got": e["conn"], "expected": host})
+                # phase 2: the right half appears
+                m.chips.update(hidden)
+                for c in m.chips.values():
+                    ox, oy = boardtile.board_origin(c.x, c.y, *root)
+                    c.local_eth = (ox % w_, oy % h_)
+                    c.sync_system_memory(router=False,
+                                         p2p=(c.x, c.y) == root)
+                n = mc.discover_connections()
+                require(n == len(up) - len(up1), "discover_connections does "
+                        "not report the number of new connections",
+                        {"got": n, "expected": len(up) - len(up1),
+                         "phase": 2})
+            elif case["discover"]:
                 n = mc.discover_connections()
                 require(n == len(up) - 1, "discover_connections does not "
                         "report the number of new connections",
@@ -742,7 +809,8 @@ def check_conn(case):
                 require((e["x"], e["y"]) == (x, y), "wrong destination", {})
     return {"nontrivial": case["discover"] and len(up) >= 2,
             "classes": ["connections%d" % min(len(up), 4)] +
-                       (["root-elsewhere"] if root != (0, 0) else [])}
+                       (["root-elsewhere"] if root != (0, 0) else []) +
+                       (["grown"] if grow else [])}
 
 
 def _strat(which):
